@@ -304,7 +304,7 @@ def mon_deadline(tr):
                 nconn += 1
             # two deadline expiries in a row: the second one saw no progress, the connection must be given up - the read
             # routine cannot be found waiting on it afterwards
-            if double is not None and double == nconn - 1 and (l.startswith("ev stall %d " % double) or l == "rs parked") \
+            if double is not None and double == nconn - 1 and l.startswith("ev stall %d " % double) \
                     and not any(x.startswith(("unsupported", "dead after")) for x in lines):
                 out.append(("deadline:expiry-ignored", "connection %d saw two read deadline expiries in a row (the second without progress) and the read routine still waits on it: `%s`" % (double, l)))
                 double = None
@@ -613,7 +613,8 @@ def add_drain(ctx, scripts):
             heads.append(None)     # damage under a running client is outside the drain claim
             continue
         kv = dict(x.split("=") for x in st[-1].split()[1:])
-        if kv["noClient"] == "true" or kv["closed"] == "true" or kv["link"] == "closed" or kv["waiters"] != "0":
+        if kv["noClient"] == "true" or kv["closed"] == "true" or kv["link"] == "closed" or kv["waiters"] != "0" or kv.get("stuck") == "true":
+            # (a goroutine parked by the script - in the Dialer, awaiting CONNACK, inside conn.Write - stays there: no drain)
             heads.append(None)
             continue
         ep = ["brk"]
@@ -753,7 +754,7 @@ def run_property(ctx, module, profile, n_quick, n_thorough, monitors, keep, leng
     for sc in (extra or []):
         scripts.append(sc)
     g = Gen(ctx.rng, profile, length)
-    n = n_quick if ctx.quick() else n_thorough
+    n = n_quick * 3 if ctx.quick() else n_thorough * 2     # sharded over the cores: still seconds (quick) resp. a minute or two (thorough)
     for _ in range(n):
         scripts.append(g.script())
     if transform:
